@@ -104,6 +104,15 @@ func runC14(r *vhlib.Run) {
 				big = append(big, vhlib.RandBytes(rng, 5000)...)
 			}
 			pool = append(pool, gen.BrotliEnc(rng, big))
+			// small windows that the stream wraps several times, and context-modelled
+			// text (several literal trees) declaring the SAME window size: what the first
+			// two literals of the next stream see as "previous bytes" must be zero
+			for _, lgwin := range []int{10, 12} {
+				for k := 0; k < 2; k++ {
+					txt := []byte(brText(rng, 6000+rng.Intn(3000)))
+					pool = append(pool, ref.BrCompress([]ref.BrOp{{Data: txt, Op: 2}}, 11, lgwin, 1, 0, -1, -1))
+				}
+			}
 		case "bzip2":
 			pool = append(pool, ref.BZCompress(vhlib.RandBytes(rng, 120000), 1))
 		}
@@ -114,7 +123,8 @@ func runC14(r *vhlib.Run) {
 			rec = func(hist []int, d int) {
 				if len(hist) > 0 {
 					var names []string
-					z := c.New(bytes.NewReader(pool[hist[0]%len(pool)]))
+					src := bytes.NewReader(pool[hist[0]%len(pool)])
+					z := c.New(src)
 					func() {
 						defer func() { recover() }()
 						for _, a := range hist[1:] {
@@ -122,9 +132,24 @@ func runC14(r *vhlib.Run) {
 							acts[a].Do(z, rng)
 						}
 					}()
-					z.Reset(bytes.NewReader(target))
+					// how the next source is handed over: a new object; the SAME object
+					// re-pointed at the new data; the same object re-pointed at a frame whose
+					// header the caller has already consumed
+					how := []string{"new-source-object", "same-object-repointed", "same-object-behind-consumed-header"}[(len(hist)+ti+hist[len(hist)-1])%3]
+					switch how {
+					case "new-source-object":
+						z.Reset(bytes.NewReader(target))
+					case "same-object-repointed":
+						src.Reset(target)
+						z.Reset(src)
+					default:
+						hdr := vhlib.RandBytes(rng, 1+rng.Intn(12))
+						src.Reset(append(append([]byte{}, hdr...), target...))
+						io.ReadFull(src, make([]byte, len(hdr)))
+						z.Reset(src)
+					}
 					got := readFinal(z)
-					rp := map[string]interface{}{"type": c.Name + ".Reader", "first_stream": fmt.Sprintf("pool%d", hist[0]%len(pool)), "history": names, "target": fmt.Sprintf("pool%d", ti), "target_hex": vhlib.Hex(target)}
+					rp := map[string]interface{}{"type": c.Name + ".Reader", "first_stream": fmt.Sprintf("pool%d", hist[0]%len(pool)), "history": names, "target": fmt.Sprintf("pool%d", ti), "target_hex": vhlib.Hex(target), "handover": how}
 					r.Eval("reader:"+c.Name, true, []byte(fmt.Sprint(c.Name, hist, ti)))
 					if !got.eq(fresh) {
 						r.Violate("reset-not-fresh", fmt.Sprintf("%s.Reader: after %v + Reset: class=%s out=%d in=%d; fresh: class=%s out=%d in=%d (panic %q)",
